@@ -625,7 +625,7 @@ impl Sim {
             let r = self.guarded(|s| s.world.wait_submit_begin(msg));
             let Some(c) = r else {
                 let p = self.panicked.clone().unwrap_or_default();
-                self.job.lines.push(format!("mon FAIL c09.panic {} {}", panic_site(&p), p.replace('\n', " ")));
+                self.job.lines.push(format!("mon FAIL c09.panic {} {}", self.panic_sig(&p), p.replace('\n', " ")));
                 return None;
             };
             let evs = drain_events(&self.world.events);
@@ -651,10 +651,10 @@ impl Sim {
             if is_job_layer_panic(&p) {
                 self.job.lines.push("out !panic job".to_string());
             }
-            self.job.lines.push(format!("mon FAIL c09.panic {} {}", panic_site(&p), p.replace('\n', " ")));
+            self.job.lines.push(format!("mon FAIL c09.panic {} {}", self.panic_sig(&p), p.replace('\n', " ")));
             let cbs = self.world.take_callbacks();
             self.core_flush(vec![], &cbs);
-            self.core.lines.push(format!("mon FAIL c09.panic {} {}", panic_site(&p), p.replace('\n', " ")));
+            self.core.lines.push(format!("mon FAIL c09.panic {} {}", self.panic_sig(&p), p.replace('\n', " ")));
             return None;
         };
         let evs = drain_events(&self.world.events);
@@ -1120,11 +1120,20 @@ impl Sim {
 
     // ---- cluster actions ------------------------------------------------------------------
 
+    /// signature of a caught panic: the source function; the `is_free()` assertion of `set_mn_task` in a run in which
+    /// the server's books of a still connected worker have saturated before (finding F29: free + reserved != total from
+    /// then on) is marked as a consequence of that state, so that it is identified separately from the same site on sound books
+    fn panic_sig(&self, p: &str) -> String {
+        let site = panic_site(p);
+        // only the assertion that reads a worker's books (`is_free()` when a multi-node task is placed) is explained by them
+        if site == "worker.set_mn_task" && !self.mon.prefill_saturated.is_empty() { format!("{site}+after-f29-saturated-books") } else { site }
+    }
+
     fn world_action(&mut self, core_ops: Vec<String>, f: impl FnOnce(&mut Sim)) {
         self.guarded(|s| f(s));
         self.flush_callbacks(core_ops);
         if let Some(p) = self.panicked.clone() {
-            let l = format!("mon FAIL c09.panic {} {}", panic_site(&p), p.replace('\n', " "));
+            let l = format!("mon FAIL c09.panic {} {}", self.panic_sig(&p), p.replace('\n', " "));
             self.job.lines.push(l.clone());
             self.core.lines.push(l);
             self.mon.job_layer_panic(&panic_site(&p), &p);
@@ -1177,7 +1186,7 @@ impl Sim {
         let op = format!("wnew {} tot={} g={} term={}", next.as_num(), tot, group, term);
         self.flush_callbacks(vec![op]);
         if let Some(p) = &self.panicked {
-            let l = format!("mon FAIL c09.panic {} {}", panic_site(p), p.replace('\n', " "));
+            let l = format!("mon FAIL c09.panic {} {}", self.panic_sig(p), p.replace('\n', " "));
             self.job.lines.push(l.clone());
             self.core.lines.push(l);
         }
